@@ -107,6 +107,28 @@ def lookup2 (tbl : List (String × List (String × String))) (a b : String) : Ty
   | some inner => inner.lookup b
   | none => none
 
+/-- the class an instance-reference type refers to -/
+def tyClass (c : TCtx) (t : Ty) : Option ClassInfo :=
+  match c.classOfType t with
+  | some (ci, _) => some ci
+  | none => none
+
+/-- the class `selected` denotes inside a where clause -/
+def selClass (c : TCtx) (sel : Option String) : Option ClassInfo :=
+  match sel with
+  | some kl => c.cls kl
+  | none => none
+
+def attrTy (cls : Option ClassInfo) (a : String) : Ty :=
+  match cls with
+  | some ci => ci.attrs.lookup a
+  | none => none
+
+def opTy (cls : Option ClassInfo) (n : String) : Ty :=
+  match cls with
+  | some ci => ci.ops.lookup n
+  | none => none
+
 /-- `typeOf ctx env sel e` — `sel` is the class `selected` denotes (inside a where clause) -/
 def typeOf (c : TCtx) (env : Env) (sel : Option String) : Expr → Ty
   | .int _ => some "integer"
@@ -126,16 +148,9 @@ def typeOf (c : TCtx) (env : Env) (sel : Option String) : Expr → Ty
   | .selected => some "inst_ref<Object>"
   | .param n => c.params.lookup n
   | .field h a =>
-    let cls : Option ClassInfo := match h with
-      | .selected => match sel with
-        | some kl => c.cls kl
-        | none => none
-      | _ => match c.classOfType (typeOf c env sel h) with
-        | some (ci, _) => some ci
-        | none => none
-    match cls with
-    | some ci => ci.attrs.lookup a
-    | none => none
+    match h with
+    | .selected => attrTy (selClass c sel) a
+    | _ => attrTy (tyClass c (typeOf c env sel h)) a
   | .index h _ => typeOf c env sel h
   | .un op e =>
     if boolUnOps.contains op then some "boolean"
@@ -151,9 +166,7 @@ def typeOf (c : TCtx) (env : Env) (sel : Option String) : Expr → Ty
     | some ci => ci.ops.lookup n
     | none => none
   | .call _ _ _ _ => none
-  | .icall h n _ => match c.classOfType (typeOf c env sel h) with
-    | some (ci, _) => ci.ops.lookup n
-    | none => none
+  | .icall h n _ => opTy (tyClass c (typeOf c env sel h)) n
 
 /-- the R801 subtype the prebuilder instantiates for the value of an expression -/
 def kindOf (c : TCtx) (env : Env) : Expr → String
